@@ -3,6 +3,7 @@ package engine
 import (
 	"fmt"
 	"go/types"
+	"hash/fnv"
 	"regexp/syntax"
 	"sort"
 	"strconv"
@@ -377,6 +378,17 @@ func inSplit(m *Machine, fn *ssa.Function, a []Value) Value {
 	if !sep.IsConst() || len([]rune(sep.S)) != 1 {
 		unsupported("strings.Split with symbolic or multi-rune separator")
 	}
+	// the decomposition of a given subject is computed once per path, so that
+	// repeated calls see the same parts (Split is a function)
+	memoKey := "split:" + sep.S + ":" + s.Key()
+	if prev, ok := m.env[memoKey].([]Value); ok {
+		return m.stringSlice(prev)
+	}
+	defer func() {
+		if r := recover(); r != nil {
+			panic(r)
+		}
+	}()
 	// fork on the number of separators k; s = p0 sep p1 ... pk, no pi contains sep
 	maxK := m.Cfg.MaxStrLen/2 + 1
 	var out []Value
@@ -397,6 +409,7 @@ func inSplit(m *Machine, fn *ssa.Function, a []Value) Value {
 		out = append(out, p)
 		rest = q
 	}
+	m.env[memoKey] = out
 	return m.stringSlice(out)
 }
 
@@ -594,6 +607,10 @@ func inFindStringSubmatch(m *Machine, fn *ssa.Function, a []Value) Value {
 	if !m.branch(fromTerm(InRe(s, re))) {
 		return Slice{}
 	}
+	memoKey := "submatch:" + re.Pattern + ":" + s.Key()
+	if prev, ok := m.env[memoKey].([]Value); ok {
+		return m.stringSlice(prev)
+	}
 	d, err := DecomposeCaptures(re.Pattern, s, m.freshVar)
 	if err != nil {
 		unsupported("regexp captures: %v", err)
@@ -617,6 +634,7 @@ func inFindStringSubmatch(m *Machine, fn *ssa.Function, a []Value) Value {
 		}
 		out[i] = fromTerm(c)
 	}
+	m.env[memoKey] = out
 	return m.stringSlice(out)
 }
 
@@ -680,15 +698,27 @@ func inReplaceAllString(m *Machine, fn *ssa.Function, a []Value) Value {
 		unsupported("ReplaceAllString: only single character-class patterns with a one-rune replacement are modelled")
 	}
 	cls, _ := reLang(tree)
-	// contract: same length; position-wise either unchanged (outside class) or repl
-	r := m.freshVar("repl", SString)
+	// an uninterpreted function of the subject (so that equal subjects give
+	// equal results) with the contract: same length; every position either
+	// unchanged and outside the class, or the replacement; identity iff the
+	// subject has no character of the class.
+	h := fnv.New32a()
+	h.Write([]byte(re.Pattern + "\x00" + repl.S))
+	name := fmt.Sprintf("FSrepl%x", h.Sum32())
 	noCls := &Regex{Pattern: "nocls", SMT: "(re.* (re.diff re.allchar " + cls + "))"}
 	outLang := &Regex{Pattern: "outlang", SMT: "(re.* (re.union (re.diff re.allchar " + cls + ") (str.to_re " + smtStringLit(repl.S) + ")))"}
-	m.assume(Eq(Len(r), Len(s)))
-	m.assume(&Term{Op: "in_re", Args: []*Term{r}, Sort: SBool, Re: outLang})
-	m.assume(Implies(&Term{Op: "in_re", Args: []*Term{s}, Sort: SBool, Re: noCls}, Eq(r, s)))
-	m.assume(Implies(Eq(r, s), &Term{Op: "in_re", Args: []*Term{s}, Sort: SBool, Re: outLang}))
-	return r
+	RegisterAppAxioms(name, func(app *Term) []*Term {
+		arg := app.Args[0]
+		in := func(t *Term, r *Regex) *Term { return &Term{Op: "in_re", Args: []*Term{t}, Sort: SBool, Re: r} }
+		eq := &Term{Op: "=", Args: []*Term{app, arg}, Sort: SBool}
+		return []*Term{
+			&Term{Op: "=", Args: []*Term{&Term{Op: "str.len", Args: []*Term{app}, Sort: SInt}, Len(arg)}, Sort: SBool},
+			in(app, outLang),
+			Implies(in(arg, noCls), eq),
+			Implies(eq, in(arg, outLang)),
+		}
+	})
+	return fromTerm(App(name, SString, s))
 }
 
 // ---------------------------------------------------------------------------
